@@ -59,8 +59,18 @@ SENT_NOTSET, SENT_SET, SENT_CLEARED = 0, 1, 2
 M_NOTSET, M_SET, M_ABSENT = 0, 1, 2       # slot markers in the handler-level store view (2 = cleared / never added)
 
 # ---- python equality (A3): py_eq(a, b) <=> canon(a) == canon(b)
-canon = Function('canon', Val, Val)
+# canon is a *recursive function definition* (not quantified axioms): interpreted on None / bool / int / float / str / bytes /
+# tuples (component-wise), a free idempotent map on opaque objects.  Recursive definitions keep model finding decidable in
+# practice (a refuted obligation comes back `sat` with a model instead of `unknown`).
+from z3 import RecFunction, RecAddDefinition, IsInt, ToInt
+canon = RecFunction('canon', Val, Val)
 ocanon = Function('ocanon', U, U)
+_cx = Const('cx_x', Val)
+RecAddDefinition(canon, _cx,
+                 If(V.is_VBool(_cx), V.VInt(If(V.b(_cx), 1, 0)),
+                 If(V.is_VReal(_cx), If(IsInt(V.r(_cx)), V.VInt(ToInt(V.r(_cx))), _cx),
+                 If(V.is_VObj(_cx), V.VObj(ocanon(V.o(_cx))),
+                 If(V.is_VCons(_cx), V.VCons(canon(V.hd(_cx)), canon(V.tl(_cx))), _cx)))))
 
 
 def py_eq(a, b):
@@ -68,30 +78,8 @@ def py_eq(a, b):
 
 
 def canon_axioms():
-    a, b = Consts('cx_a cx_b', Val)
-    i = Int('cx_i')
-    bb = Const('cx_bb', BoolSort())
-    r = Const('cx_r', RealSort())
-    s = Const('cx_s', StringSort())
-    by = Const('cx_by', Bytes)
     u = Const('cx_u', U)
-    k = Const('cx_k', Key)
-    from z3 import IsInt, ToInt
-    return [
-        canon(V.VNone) == V.VNone,
-        canon(V.VNil) == V.VNil,
-        ForAll([i], canon(V.VSent(i)) == V.VSent(i), patterns=[canon(V.VSent(i))]),
-        ForAll([i], canon(V.VInt(i)) == V.VInt(i), patterns=[canon(V.VInt(i))]),
-        ForAll([bb], canon(V.VBool(bb)) == V.VInt(If(bb, 1, 0)), patterns=[canon(V.VBool(bb))]),
-        ForAll([r], canon(V.VReal(r)) == If(IsInt(r), V.VInt(ToInt(r)), V.VReal(r)), patterns=[canon(V.VReal(r))]),
-        ForAll([s], canon(V.VStr(s)) == V.VStr(s), patterns=[canon(V.VStr(s))]),
-        ForAll([by], canon(V.VBytes(by)) == V.VBytes(by), patterns=[canon(V.VBytes(by))]),
-        ForAll([k], canon(V.VKey(k)) == V.VKey(k), patterns=[canon(V.VKey(k))]),
-        ForAll([i], canon(V.VRef(i)) == V.VRef(i), patterns=[canon(V.VRef(i))]),
-        ForAll([u], canon(V.VObj(u)) == V.VObj(ocanon(u)), patterns=[canon(V.VObj(u))]),
-        ForAll([u], ocanon(ocanon(u)) == ocanon(u), patterns=[ocanon(u)]),
-        ForAll([a, b], canon(V.VCons(a, b)) == V.VCons(canon(a), canon(b)), patterns=[canon(V.VCons(a, b))]),
-    ]
+    return [ForAll([u], ocanon(ocanon(u)) == ocanon(u), patterns=[ocanon(u)])]
 
 
 def truthy(v):
